@@ -41,6 +41,29 @@ def strip_clip(v):
     return None
 
 
+def _range_has_width(d):
+    """sign of k*(hi - lo) for (lo, hi) = the two elements of one shortest_int result: hi > lo on the property's domain
+    (a flat signal - zero-width range - is outside it; code handling that case separately is not taken)"""
+    if not isinstance(d, Form) or len(d.terms) != 2:
+        return None
+    items = []
+    for m, c in d.terms.items():
+        if len(m) != 1 or m[0][1] != 1 or c[1] != 0:
+            return None
+        a = m[0][0]
+        if not (a[0] == "idx" and isinstance(a[1], Form) and isinstance(a[2], Form) and a[2].rational() in (0, 1)):
+            return None
+        ba = a[1].single_atom()
+        if not (ba and ba[0] == "fn" and ba[1].split(".")[-1] == "shortest_int"):
+            return None
+        items.append((int(a[2].rational()), c[0], a[1]))
+    (i0, c0, b0), (i1, c1, b1) = items
+    if i0 == i1 or c0 != -c1 or b0 != b1:
+        return None
+    chi = c0 if i0 == 1 else c1          # coefficient of hi
+    return 1 if chi > 0 else -1
+
+
 def peel_cast(v):
     """astype(x, T) -> x (a cast AFTER the clamp acts on codes already inside [0, 2**n-1])"""
     a = v.single_atom() if isinstance(v, Form) else None
@@ -116,6 +139,7 @@ def run(ctx):
             case = f"otype='{ot}', noise {noise}"
             it = Interp(pkg, param_classes={"input": "electrical_signal"}, assumptions={"input.noise": noise, "fs": None, "otype": ot}, no_inline=("shortest_int",))
             it.keep_astype = True      # a cast between rounding and clamping matters (wrap-around of out-of-range codes)
+            it.domain_sign = _range_has_width      # the statement is about signals whose 99.99% range has positive width
             outs = it.run(fi)
             rets = [o for o in outs if o.kind == "return"]
             if len(rets) != 1 or not isinstance(rets[0].value, ObjV):
